@@ -77,7 +77,7 @@ def run(F, tier, res):
             if r in ('std::io::_print',) or (r.startswith('<std::io::Stdout as std::io::Write>') ) or r.endswith('Stdout::lock') and False:
                 res.violate('NO-PRINT', 'fn=%s;callee=%s' % (p, r), 'the renderer writes to stdout directly (print!/Stdout::write) instead of through the fallible writer: '
                             'bypasses the pager and panics on a closed pipe', where=F.span_of_call(c))
-    res.rule('C18.NO-PRINT', n, 3000, 'calls in the %d functions reachable from the renderer, none to std::io::_print / Stdout::write' % len(render))
+    res.rule('C18.NO-PRINT', n, 1500, 'calls in the %d functions reachable from the renderer, none to std::io::_print / Stdout::write' % len(render))
     # positive control: _print exists elsewhere in the crate (so the matcher can match)
     ctl = Ru.call_sites(F, lambda r, c: r == 'std::io::_print')
     res.rule('C18.NO-PRINT.control', len(ctl), 1, 'positive control: call sites of std::io::_print outside the renderer (the matcher matches)')
@@ -175,7 +175,7 @@ def run(F, tier, res):
         else:
             res.violate('BROKEN-PIPE', 'fn=%s;prints-error-unconditionally' % p, 'an io::Error from an output path is printed without first excluding BrokenPipe: a quit pager produces an error message',
                         where=F.span_of_call(c))
-    res.rule('C18.BROKEN-PIPE', nb, 6, '`?` propagation sites of io::Error in run_app (each through a BrokenPipe-mapping function) + explicit error.kind() matches (each with a silent BrokenPipe arm)', discharged=okb)
+    res.rule('C18.BROKEN-PIPE', nb, 2, '`?` propagation sites of io::Error in run_app (each through a BrokenPipe-mapping function) + explicit error.kind() matches (each with a silent BrokenPipe arm)', discharged=okb)
     # ---------- EXIT
     nx = okx = 0
     for (q, i, c) in Ru.call_sites(F, lambda r, c: r == 'std::process::exit'):
@@ -225,7 +225,7 @@ def run(F, tier, res):
                 else:
                     res.violate('EXIT', 'fn=%s;after-pager;callee=%s' % (q, cal), 'run_app calls %s, which can end the process with process::exit, while the pager handle is alive: '
                                 'delta exits before the pager does (Drop is skipped) and the status being passed through is replaced' % cal, where=F.span_of_call(cc))
-    res.rule('C18.EXIT', nx, 6, 'process::exit call sites + the pager wait in Drop for OutputType', discharged=okx)
+    res.rule('C18.EXIT', nx, 3, 'process::exit call sites + the pager wait in Drop for OutputType', discharged=okx)
     # ---------- STATUS
     rets = []
     for b in blocks:
